@@ -44,8 +44,10 @@ def run_kani_part(pid, rep):
     if failed:
         build_probe()
     for kind, items in failed.items():
-        fn = getattr(replays, "replay_" + kind)
-        reproduced = fn(items)
+        # a harness may name several batteries ("a+b"): all are run
+        reproduced = []
+        for part in kind.split("+"):
+            reproduced += getattr(replays, "replay_" + part)(items)
         replayed += 1
         if not reproduced:
             # no battery scenario reproduces: native concrete playback for stub-free harnesses
